@@ -27,6 +27,10 @@ Grammar(s, lc) == IsLoc(Parse(s, TRUE), lc) \/ IsLoc(Parse(s, FALSE), lc)
 WidenOK(ins, lc) == \A n \in 1..NW : ins[n] = B(Inside(lc, WidenQ(lc, n)))
 ChangeOK(ins, lc) == \A n \in 1..NC : ins[NW + n] = B(Inside(lc, ChangeQ(lc, n)))
 
+\* neigh[s] = positions (1..NP) of the services returned when member s of the neighbourhood is the filter location
+\* (<<0>> : the call raised)
+NeighOK(neigh, lc) == \A s \in 1..NP : Rng(neigh[s]) = {t \in 1..NP : Inside(PopLoc(lc, t), PopLoc(lc, s))}
+
 JudgeLoc(c, a, lc) ==
   /\ Clause("own_scope_total", a.scope_exc = "")
   /\ a.scope_exc = "" =>
@@ -34,6 +38,7 @@ JudgeLoc(c, a, lc) ==
        /\ Clause("own_scope_grammar", Grammar(a.scope, lc))
        /\ Clause("own_inside_widening", WidenOK(a.in_own, lc))
        /\ Clause("own_outside_changed", ChangeOK(a.in_own, lc))
+       /\ Clause("own_neighbourhood", NeighOK(a.neigh, lc))
   /\ Clause("ref_scope_parsed", SameLoc(a.ref_lower, lc) /\ SameLoc(a.ref_upper, lc))
   \* publishing needs at least one element (documented precondition of the fallback identifier)
   /\ c.pat # 0 =>
